@@ -533,6 +533,7 @@ Definition spec_render (t v off : Z) (fmt : str) : list tok :=
       match spec_render_walk (mkCtx f wd doy t off) fmt [] 0 (S (List.length fmt)) with Some s => [TL s] | None => nospec end
   | _, _ => nospec
   end.
+Definition is_float_id_early (t : Z) : bool := (t =? 2) || (t =? 3).
 Definition dispatch_text (name : string) (a : list tok) : option (list tok * list tok) :=
   match name, a with
   | "disp_dur"%string, [TZ c; TZ n] => Some (tstr (display_duration (from_parts c n)), tstr (spec_display_duration (pval c n)))
@@ -565,6 +566,11 @@ Definition dispatch_text (name : string) (a : list tok) : option (list tok * lis
             | inr _ => [TErr 9] end,
             if mode =? 0 then (match spec_render t (pval c n) 0 fs with [TNoSpec] => nopanic | r => r end)
             else let v' := pval c n + pval oc on in if in_rangev v' then spec_render t v' (pval oc on) fs else nospec)
+  | "iso_vs_display"%string, [TZ c; TZ n; TZ t] =>
+      (* the ISO 8601 formatter output equals the default display (1 = equal) *)
+      let t := norm_ts t in let e := mk_epoch c n t in
+      Some ([tb (match formatter_new e (predefined_by_index 0) with ROk s => str_eqb s (display_epoch e) | _ => false end)],
+            if is_float_id_early t then nospec else [TZ 1])
   | "fmt_render_const"%string, [TZ c; TZ n; TZ t; TZ oc; TZ on; TZ mode; TZ k] =>
       let t := norm_ts t in let e := mk_epoch c n t in let f := predefined_by_index k in
       Some (trender (if mode =? 0 then formatter_new e f else formatter_with_timezone e (from_parts oc on) f),
